@@ -473,7 +473,7 @@ Definition st_end_top (s : sc) : res sc :=
     (* fix a0479cf: in length mode a slash that does not begin // or /* is the first byte after the schema *)
     match la with
     | x :: _ => if (s_lc s && negb (ch x 47) && negb (ch x 42))%bool then ROk (found EndTop s) else switch_to_annotation s
-    | [] => switch_to_annotation s
+    | [] => if s_lc s then ROk (found EndTop s) else switch_to_annotation s      (* seventh-round fix: the slash is the last byte of the text *)
     end
   else if is_comment_start s c then switch_to_comment s
   else if negb (is_blank c) then
@@ -1010,6 +1010,26 @@ Fixpoint drop_leading_newlines (evs : list lexev) : list lexev :=
   | e :: r => match e_type e with NewLine => drop_leading_newlines r | _ => evs end
   | [] => []
   end.
+(* seventh-round fix: Length() counts the open annotations and notes whether a value begins outside them; a text of
+   annotations only ("// x", "/* x */") has no schema: Length() = 0, and Len reports 202 like Check does.
+   [evs] = the events Length() requests: up to and including the first EndTop *)
+Fixpoint upto_end_top (evs : list lexev) : list lexev :=
+  match evs with
+  | [] => []
+  | e :: r => match e_type e with EndTop => [e] | _ => e :: upto_end_top r end
+  end.
+Fixpoint has_example (depth : nat) (evs : list lexev) : bool :=
+  match evs with
+  | [] => false
+  | e :: r =>
+    match e_type e with
+    | InlineAnnotationBegin | MultiLineAnnotationBegin => has_example (S depth) r
+    | InlineAnnotationEnd | MultiLineAnnotationEnd => has_example (Nat.pred depth) r
+    | LiteralBegin | ObjectBegin | ArrayBegin | MixedValueBegin =>
+      match depth with O => true | S _ => has_example depth r end
+    | _ => has_example depth r
+    end
+  end.
 Definition code_empty_schema : N := 202.
 Fixpoint trim_blank_rev (rbs : bytes) : bytes :=
   match rbs with
@@ -1021,7 +1041,8 @@ Definition schema_len (bs : bytes) : verdict :=
   let size := N.of_nat (length bs) in
   let '(raw, stopped) := length_loop size (drop_leading_newlines evs) 0%N in
   let trimmed :=
-      if N.ltb size raw then VPanic     (* s.data[length-1]: index out of range *)
+      if negb (has_example 0 (upto_end_top (drop_leading_newlines evs))) then VErr code_empty_schema 0%N   (* Length() = 0: annotations only *)
+      else if N.ltb size raw then VPanic     (* s.data[length-1]: index out of range *)
       else let n := N.of_nat (length (trim_blank_rev (frev (firstn (N.to_nat raw) bs)))) in
            if N.eqb n 0 then VErr code_empty_schema 0%N     (* Schema.computeLen: nothing was found *)
            else VLen n in
